@@ -148,9 +148,64 @@ def acc_add(acc, y, psi_fn, mean):
     acc["max"] = mx
 
 
+def coarse_tally_case(case):
+    """One coarse leap out of a nearly empty cell: x = 1..5 molecules in one cell of a two-cell space, nothing in the other, a
+    step so long that the expected number of jumps (lambda = 2 or 3) exceeds what the cell holds.  The number that arrives in the
+    empty cell after ONE step is that channel's firing count: Poisson(lambda), untruncated (the source may go negative).  Repeated
+    over seeds; Ville mean test and randomised PIT, pooled with the other monitors."""
+    use_repo()
+    engines.install()
+    import strengths as st
+    sd, idx = case["seed"], case["idx"]
+    r = gen.rng_for(sd, "C07coarse", idx)
+    accs, hists, bad, counts = {}, {}, [], {}
+    x = r.choice([1, 1, 2, 3, 5])
+    lam = r.choice([2.0, 3.0, 1.2])
+    D = r.uniform(0.3, 2.0)
+    if r.random() < 0.5:
+        space = st.RDGridSpace(w=2, h=1, d=1, cell_vol=1.0)
+        kd = D                      # one face of 1 um^2, centre distance 1 um, volume 1 um^3
+    else:
+        v0, sfc, dst = r.uniform(0.5, 2.0), r.uniform(0.5, 2.0), r.uniform(0.5, 2.0)
+        space = st.RDGraphSpace([st.RDGraphSpaceNode(volume=v0), st.RDGraphSpaceNode(volume=r.uniform(0.5, 2.0))],
+                                [st.RDGraphSpaceEdge(0, 1, surface=sfc, distance=dst)])
+        kd = D * sfc / (dst * v0)
+    net = st.RDNetwork([st.Species("A", D=D, density=0)], [])
+    system = st.RDSystem(net, space, state=[float(x), 0.0])
+    dt = lam / (kd * x)
+    vr = gen.rng_for(sd, "C07coarse-pit", idx)
+    for rep in range(case.get("reps", 120)):
+        script = st.RDScript(system, t_sample=[0], t_max=10 * dt, time_step=dt, sampling_policy="on_iteration", rng_seed=r.randrange(2 ** 31),
+                             init_state_processing="none")
+        e = engines.get("tauleap")
+        e.setup(script)
+        e.iterate()
+        out = e.get_output()
+        e.finalize()
+        dd = np.array(out.data.convert("molecule").value, dtype=float)
+        if dd.size < 4:
+            bad.append({"what": "coarse leap: no record after one step", "case": case})
+            break
+        y, src = dd[3], dd[2]
+        counts["tauleap_coarse_leap_observations"] = counts.get("tauleap_coarse_leap_observations", 0) + 1
+        if y < 0 or y != math.floor(y) or src + y != x:
+            bad.append({"what": "coarse leap: arrivals are not a non-negative integer matched by the source's loss", "arrived": float(y), "source_after": float(src),
+                        "source_before": x, "case": case})
+            break
+        lo, f = stats.poisson_pmf_cdf(int(y), lam)
+        h_ = hists.setdefault("tauleap-coarse-leap", [0] * NB)
+        h_[min(NB - 1, max(0, int((lo + vr.random() * f) * NB)))] += 1
+        a_ = accs.setdefault("tauleap-coarse-leap-mean", new_acc())
+        acc_add(a_, y, lambda th: lam * math.expm1(th), lam)
+    return {"key": chash(["coarse", sd, idx]), "nontrivial": True, "counts": counts, "bad": bad[:2], "accs": accs, "hists": hists,
+            "sample": {"seed": sd, "idx": idx, "molecules": x, "expected_jumps_per_step": lam}}
+
+
 def run_case(case):
     use_repo()
     engines.install()
+    if case.get("coarse_tally"):
+        return coarse_tally_case(case)
     sd, idx, kind_ = case["seed"], case["idx"], case["engine"]
     fixed_dt = None
     if case.get("tally_only"):
@@ -396,6 +451,7 @@ def main():
     cases = [{"seed": seed(), "idx": i, "engine": "gillespie", "events": ev} for i in range(nG)]
     cases += [{"seed": seed(), "idx": 100000 + i, "engine": "tauleap", "steps": stp} for i in range(nT)]
     cases += [{"seed": seed(), "idx": 200000 + i, "engine": "tauleap", "steps": stp, "tally_only": True} for i in range(nT // 2)]
+    cases += [{"seed": seed(), "idx": 300000 + i, "engine": "tauleap", "coarse_tally": True} for i in range(160 if thorough else 32)]
     res = pmap("vf.checks.c07:run_case", cases, cpu_budget=60)
     pooled, hists = {}, {}
     per_case_looks = 0
@@ -459,7 +515,7 @@ def main():
                           mech={"what": "pit", "monitor": name})
     run.note("statistical_monitors", summ)
     run.note("false_alarm_budget", (len(pooled) + len(hists) + per_case_looks) * stats.ALPHA)
-    for need in ("ville:gillespie-wait", "pit:gillespie-wait", "pit:tauleap-tally"):
+    for need in ("ville:gillespie-wait", "pit:gillespie-wait", "pit:tauleap-tally", "pit:tauleap-coarse-leap"):
         run.require(need)
     from vf.sandbox import run_extra as _run_extra
     _run_extra(run, "vf.checks.c07:run_large", [{"seed": seed(), "idx": _i} for _i in range(400 if thorough else 48)], cpu_budget=120,
